@@ -152,6 +152,7 @@ def ref_eval_points(algo, u1, v1, a1, un, vn, an, prm):
 def run(ctx):
     ctx.attempt(step_commit_rule, ctx)
     ctx.attempt(derived_parameters_rule, ctx)
+    ctx.attempt(validate_before_commit_rule, ctx)
     ctx.attempt(newton_loop_rule, ctx)
     # 'for all step sequences including switching algorithm or step size between steps': no memo of a scheme-dependent quantity survives a change of the scheme
     from ..shared import memo_rule as _memo_rule, cached_param_rule as _cached_param_rule
@@ -649,3 +650,42 @@ def derived_parameters_rule(ctx):
             r.fail(f.qualname, f"params:{algo}", f.file, f.lineno, "Solver_Set_Hyperbolic_Algorithm", f"AlgoType.{algo}: the scheme runs with {bad}: every table reads the stored tuple, the step stays self-consistent but is not the documented scheme")
         else:
             r.ok(f"{algo}: stored parameters as documented")
+
+
+def validate_before_commit_rule(ctx):
+    """R5.13: a call that selects a time scheme either takes effect as a whole or not at all: in the Solver_Set_*
+    setters no assertion / raise can run after a store through self (a rejected call -- dt <= 0, alpha outside the
+    admissible range -- would otherwise leave the new algorithm paired with the parameters of the previous one; caught
+    by the caller, the next steps run a scheme that is none of the documented ones).  Paths are followed over the
+    if / else structure of the setter."""
+    repo = ctx.repo
+    simu = repo.cls(SIMU)
+    r = ctx.rule("R5.13", "scheme setters validate before they store: no assert / raise is reachable after a store through self", min_instances=2)
+
+    def walk(block, stored):
+        """returns (stored-after-block, offending statement or None)"""
+        for st in block:
+            if isinstance(st, ast.If):
+                s1, b1 = walk(st.body, stored)
+                s2, b2 = walk(st.orelse, stored)
+                if b1 or b2:
+                    return True, b1 or b2
+                stored = s1 or s2
+                continue
+            if isinstance(st, (ast.Assert, ast.Raise)) and stored:
+                return stored, st
+            if any(isinstance(n, ast.Attribute) and isinstance(n.value, ast.Name) and n.value.id == "self" and isinstance(n.ctx, ast.Store) for n in ast.walk(st)):
+                stored = True
+        return stored, None
+
+    for nm, f in sorted(simu.methods.items()):
+        if not nm.startswith("Solver_Set_") or not nm.endswith("_Algorithm") or f.cls is not simu:
+            continue
+        if not any(isinstance(n, (ast.Assert, ast.Raise)) for n in ast.walk(f.node)):
+            continue
+        r.instance(fn=f.qualname)
+        _, bad = walk(f.node.body, False)
+        if bad is not None:
+            r.fail(f.qualname, "store-before-validation", f.file, bad.lineno, f"_Simu.{nm}", f"`{norm_text(bad)[:70]}` can reject the call after the setter has already stored part of the new configuration: a rejected call leaves the new algorithm with the parameters of the previous one")
+        else:
+            r.ok(f"{nm}: every check precedes every store")
